@@ -11,7 +11,9 @@ The plans stay inside what the Simulator accepts from any BaseScheduler:
  * placement time >= the invocation time; runtime 0;
  * the strategy is one of the task's own execution strategies (or a BatchStrategy built from one, as Clockwork builds them)
    that fits an *empty* worker of the chosen pool; a pinned worker is one that the strategy fits when empty;
- * a RELEASED task that is not planned is reported as unplaced (as EDF does), a VIRTUAL one is simply not mentioned.
+ * a RELEASED task that is not planned is reported as unplaced (as EDF does), a VIRTUAL one is simply not mentioned;
+ * with `retract`, SCHEDULED tasks whose placement is still pending are offered again (retract_schedules=True) and are
+   kept, re-planned or reported unplaced (which makes the Simulator unschedule them), as the MILP planners do.
 Once the script is exhausted the policy degrades to EDF-like first-fit-now, so runs make progress and end.
 """
 from copy import copy
@@ -28,19 +30,21 @@ OFFSETS = [0, 0, 1, 1, 2, 3, 5, 8, 13]
 
 
 class ScriptedPlanner(BaseScheduler):
-    def __init__(self, script, batching=False, lookahead=0, _flags=None):
+    def __init__(self, script, batching=False, lookahead=0, retract=False, draws=None, _flags=None):
         super().__init__(preemptive=False, runtime=EventTime.zero(), lookahead=EventTime(lookahead, US), _flags=_flags)
-        self._script = list(script)
+        self._script = list(script) or [0]
+        self._draws = len(self._script) if draws is None else draws  # the script is read cyclically for this many draws
         self._pos = 0
         self._batching = batching
+        self._retract = retract
         self._open_batches = {}  # (strategy value, pool, worker) -> [BatchStrategy, members so far]
-        self.stats = {"ahead": 0, "virtual": 0, "batch_join_later": 0, "now": 0, "unplaced": 0}
+        self.stats = {"ahead": 0, "virtual": 0, "batch_join_later": 0, "now": 0, "unplaced": 0, "retracted": 0, "replanned": 0}
 
     def _draw(self, n):
         """Next script value in range(n); None when the script is used up."""
-        if self._pos >= len(self._script):
+        if self._pos >= self._draws:
             return None
-        v = self._script[self._pos] % n
+        v = self._script[self._pos % len(self._script)] % n
         self._pos += 1
         return v
 
@@ -66,15 +70,29 @@ class ScriptedPlanner(BaseScheduler):
 
     def schedule(self, sim_time, workload, worker_pools):
         tasks = workload.get_schedulable_tasks(
-            time=sim_time, lookahead=self.lookahead, preemption=False, retract_schedules=False, worker_pools=worker_pools,
+            time=sim_time, lookahead=self.lookahead, preemption=False, retract_schedules=self._retract, worker_pools=worker_pools,
             policy=BranchPredictionPolicy.ALL, release_taskgraphs=True,
         )
-        tasks = sorted((t for t in tasks if t.state in (TaskState.VIRTUAL, TaskState.RELEASED)), key=lambda t: t.unique_name)
+        ok_states = (TaskState.VIRTUAL, TaskState.RELEASED) + ((TaskState.SCHEDULED,) if self._retract else ())
+        tasks = sorted((t for t in tasks if t.state in ok_states), key=lambda t: t.unique_name)
         plan_pools = copy(worker_pools)
         placements = []
         for task in tasks:
-            released = task.state == TaskState.RELEASED
-            mode = self._draw(4)
+            if task.state == TaskState.SCHEDULED:
+                # retraction (as ILP/TetriSched with retract_schedules): keep the plan, re-plan it, or give it up
+                mode = self._draw(4)
+                if mode is None or mode == 0:
+                    continue
+                if mode >= 2:
+                    placements.append(Placement.create_task_placement(task=task))
+                    self.stats["retracted"] += 1
+                    continue
+                self.stats["replanned"] += 1
+                released = False
+                mode = 1
+            else:
+                released = task.state == TaskState.RELEASED
+                mode = self._draw(4)
             if mode is None:
                 mode = 0 if released else 3
             # 0: first-fit now (released only)   1,2: planned placement   3: not planned
@@ -109,7 +127,8 @@ class ScriptedPlanner(BaseScheduler):
                     placements.append(Placement.create_task_placement(task=task))
                 continue
             pool, strategy, ws = opts[self._draw(len(opts)) or 0]
-            off = OFFSETS[self._draw(len(OFFSETS)) or 0]
+            offsets = OFFSETS + [21, 34] if self._retract else OFFSETS
+            off = offsets[self._draw(len(offsets)) or 0]
             pin = self._draw(len(ws) + 1) or 0
             worker = ws[pin - 1] if pin else None
             chosen = strategy
